@@ -803,6 +803,101 @@ def rule_hc7(prog):
                    'example 0 hits' % len(pos))
     return r
 
+# ---------------------------------------------------------------------------
+# R-HC-8  tables that survive a call
+# ---------------------------------------------------------------------------
+
+_TABLE_CALLS = ('dict', 'set', 'list', 'WeakValueDictionary',
+                'WeakKeyDictionary', 'WeakSet', 'OrderedDict', 'defaultdict')
+
+
+def persistent_tables(prog):
+    """[(owner description, name, line, [writers])] -- module-level and
+    class-level containers of the BDD package that some function writes"""
+    out = []
+    from .c17 import _module_functions
+    for mn in ('BDD.BDD', 'BDD.OBDD', 'BDD.ordering'):
+        try:
+            mod = prog.module(mn)
+        except Exception:
+            continue
+        cands = []
+        scopes = [(None, mod.tree.body)] + [
+            (ci, ci.node.body) for ci in mod.classes.values()]
+        for owner, body in scopes:
+            for st in body:
+                if isinstance(st, ast.Assign) and len(st.targets) == 1 and \
+                        isinstance(st.targets[0], ast.Name):
+                    v = st.value
+                    is_tab = isinstance(v, (ast.Dict, ast.Set, ast.List)) or (
+                        isinstance(v, ast.Call) and
+                        ast.unparse(v.func).split('.')[-1] in _TABLE_CALLS)
+                    if is_tab:
+                        cands.append((owner, st.targets[0].id, st.lineno))
+        for (owner, name, line) in cands:
+            writers = []
+            for f in _module_functions(prog, mn):
+                for n in ast.walk(f.node):
+                    tgt = None
+                    if isinstance(n, ast.Subscript) and \
+                            isinstance(n.ctx, (ast.Store, ast.Del)):
+                        tgt = n.value
+                    elif isinstance(n, ast.Call) and \
+                            isinstance(n.func, ast.Attribute) and \
+                            n.func.attr in ('add', 'update', 'setdefault',
+                                            'append', 'extend', 'pop',
+                                            'clear', 'discard', 'remove'):
+                        tgt = n.func.value
+                    if tgt is None:
+                        continue
+                    hit = (isinstance(tgt, ast.Name) and tgt.id == name and
+                           owner is None) or (
+                        isinstance(tgt, ast.Attribute) and tgt.attr == name
+                        and owner is not None)
+                    if hit and f.short() not in writers:
+                        writers.append(f.short())
+            if writers:
+                out.append((owner.short() if owner is not None else mn,
+                            name, line, writers, mod.relpath))
+    return out
+
+
+def rule_hc8(prog):
+    """the only tables of the package that live across calls are the unique
+    table itself (the terminal table and the weak parent registries).  Any
+    other table that a function fills (a memo of parsed texts, of validated
+    roots, of results) answers later calls from what earlier calls did:
+    whether its keys determine the answer -- ordering, operator, liveness of
+    the nodes -- is not decided here, so such a table gives no verdict"""
+    r = RuleResult('R-HC-8', 'no table other than the unique table survives '
+                   'a call')
+    base, nt, tt = _classes(prog)
+    tabs = persistent_tables(prog)
+    # the terminal table: the class-level dict the terminal constructor
+    # stores the new terminal in
+    tnew = prog.method(tt, '__new__', own=True)
+    known = set()
+    if tnew is not None:
+        for n in ast.walk(tnew.node):
+            if isinstance(n, ast.Subscript) and \
+                    isinstance(n.ctx, ast.Store) and \
+                    isinstance(n.value, ast.Attribute):
+                known.add(n.value.attr)
+    for (owner, name, line, writers, rel) in tabs:
+        r.inst(table='%s.%s' % (owner, name), written_by=writers,
+               unique_table=name in known)
+        if name in known:
+            r.ok()
+            continue
+        raise Inconclusive(
+            'R-HC-8', 'the table %s.%s outlives the calls of %s that fill '
+            'it; whether its keys determine the stored answers (ordering, '
+            'operator, lifetime of the nodes) is not decided' % (
+                owner, name, ', '.join(writers)), '%s:%d' % (rel, line))
+    if not tabs:
+        raise Inconclusive('R-HC-8', 'the terminal table was not found', '')
+    return r
+
 
 def _documented_node_fields(prog, rule):
     """the rules below address the fields of a node by the names the
@@ -852,6 +947,7 @@ def run(prog, tier, seed):
                 PROP, 'operations must return the canonical node of the '
                 'right function')
     r7 = T(rule_hc7, prog)
+    r8 = T(rule_hc8, prog)
     # "obtained by parsing": the reader must build the function it is given
     from . import c18
 
@@ -863,5 +959,5 @@ def run(prog, tier, seed):
                 rr1, T(c18.rule_bp2, prog, presults),
                 T(c18.rule_bp2b, prog, presults)), PROP,
                 'parsing denotes the function that is written')
-    return T.results(r1, r2, r3, r4, r5, r7) + dep, expl, assumptions, \
+    return T.results(r1, r2, r3, r4, r5, r7, r8) + dep, expl, assumptions, \
         T.extra()
